@@ -344,10 +344,24 @@ def unit_koh_invariant(unit):
         P("init:koh-nibble", 0 <= kb.koh <= 0x0F)
         v = eng.fresh("v", 32)
         kb._compute_kil = lambda **kw: 0     # the latch refresh is covered by unit_kil_all
+        # frame: a strobe-register write changes no key's debounce state and queues nothing (every key arbitrary)
+        fs = {name: _sym_key(eng, st, "_" + name) for name, st in kb._key_states.items()}
+        fifo0 = (list(kb._fifo), kb._head, kb._tail)
+
+        def keys_untouched(tag):
+            same = []
+            for name, st in kb._key_states.items():
+                f = fs[name]
+                same.append(z3.And(_b(st.pressed) == _b(f["pressed"]), _b(st.debounced) == _b(f["debounced"]), TI(st.press_ticks) == TI(f["press"]),
+                                   TI(st.release_ticks) == TI(f["rel"]), TI(st.repeat_ticks) == TI(f["rep"])))
+            P(f"{tag}:keys-untouched", SymBool(z3.And(same)), "a strobe-register write must not touch any key's debounce automaton (all 87 keys arbitrary)")
+            P(f"{tag}:queue-untouched", (list(kb._fifo), kb._head, kb._tail) == fifo0)
         kb.write_kol(v)
         P("write_kol:byte", SymBool(T(kb.kol) == (T(v) & 0xFF)))
+        keys_untouched("write_kol")
         kb.write_koh(v)
         P("write_koh:nibble", SymBool(T(kb.koh) == (T(v) & 0x0F)))
+        keys_untouched("write_koh")
         snap = KM.KeyboardMatrix(columns_active_high=high).snapshot_state()
         snap["kol"], snap["koh"] = eng.fresh("skol", 32), eng.fresh("skoh", 32)
         kb.load_state(snap)
